@@ -218,3 +218,28 @@ Theorem C03_numlit_ws_invariant : forall w1 w2 s, forallb is_ws w1 = true -> for
   /\ js_number_lit (w1 ++ s ++ w2) = js_number_lit s.
 Proof. exact nl_ws_invariant. Qed.
 Print Assumptions C03_numlit_ws_invariant.
+
+(* ---- rbql-js: AggregateWriter.finish sorts the key texts with Array.prototype.sort(compare_aggregation_keys), which parses them
+   back and compares the tuples.  On DISTINCT position-wise homogeneous tuples (integers / strings without a code point in
+   U+E000..U+FFFF) any arrangement that ECMA-262 allows the sort to return is the ascending tuple order - numbers as integers,
+   strings by code units - and that is the order of the reference sort_keys (JsSort.v, JsSort_Proofs.v) *)
+From RBQL Require Import Utf16 JsSort JsSort_Proofs.
+Theorem C03_js_group_order : forall (ks : list key) (out : list (list kc)),
+  (forall k, In k ks -> key_ok (forallb low_or_astral) k = true) ->
+  (forall a b, In a ks -> In b ks -> shape_eqb (enc_key a) (enc_key b) = true) ->
+  NoDup (map enc_key ks) ->
+  Permutation (map enc_key ks) out ->
+  StronglySorted (fun a b => compare_aggregation_keys (Some b) (Some a) <> (-1)%Z) out ->
+  out = map enc_key (sort_keys ks) /\ StronglySorted (fun a b => kcs_ltb a b = true) out.
+Proof. exact js_group_order. Qed.
+Print Assumptions C03_js_group_order.
+
+Theorem C03_js_group_order_bmp : forall (ks : list key) (out : list (list kc)),
+  (forall k, In k ks -> key_ok (forallb bmp) k = true) ->
+  (forall a b, In a ks -> In b ks -> shape_eqb (enc_key a) (enc_key b) = true) ->
+  NoDup (map enc_key ks) ->
+  Permutation (map enc_key ks) out ->
+  StronglySorted (fun a b => compare_aggregation_keys (Some b) (Some a) <> (-1)%Z) out ->
+  out = map enc_key (sort_keys ks) /\ StronglySorted (fun a b => kcs_ltb a b = true) out.
+Proof. exact js_group_order_bmp. Qed.
+Print Assumptions C03_js_group_order_bmp.
